@@ -1284,7 +1284,9 @@ class MultiAgentRLAlgorithm(EvolvableAlgorithm, ABC):
         :rtype: torch.Tensor[float] or dict[str, torch.Tensor[float]] or Tuple[torch.Tensor[float], ...]
         """
         preprocessed = {}
-        for agent_id, obs in observation.items():
+        # NOTE: Iterate in the order of the agent ids, callers zip the result with them
+        for agent_id in (a for a in self.agent_ids if a in observation):
+            obs = observation[agent_id]
             preprocessed[agent_id] = preprocess_observation(
                 observation=obs,
                 observation_space=self.observation_space.get(agent_id),
